@@ -245,17 +245,24 @@ impl KeyValueStorage for Handle {
 
 impl Handle {
     fn put(&self, key: Bytes, value: Bytes) -> Result<(), Error> {
-        if self.ctx.closed.load() {
-            return Err(Error::Closed);
-        }
-        self.writer.lock().put(key, value)
+        self.lock_writer()?.put(key, value)
     }
 
     fn delete(&self, key: Bytes) -> Result<bool, Error> {
+        self.lock_writer()?.delete(key)
+    }
+
+    /// Take the writer unless the storage is closed. The flag is looked at again once the lock is
+    /// held, an operation that was waiting for the lock when the storage was closed must not start.
+    fn lock_writer(&self) -> Result<parking_lot::MutexGuard<'_, Writer>, Error> {
         if self.ctx.closed.load() {
             return Err(Error::Closed);
         }
-        self.writer.lock().delete(key)
+        let writer = self.writer.lock();
+        if self.ctx.closed.load() {
+            return Err(Error::Closed);
+        }
+        Ok(writer)
     }
 
     fn get(&self, key: Bytes) -> Result<Option<Bytes>, Error> {
@@ -281,21 +288,18 @@ impl Handle {
     }
 
     fn merge(&self) -> Result<(), Error> {
-        if self.ctx.closed.load() {
-            return Err(Error::Closed);
-        }
-        self.writer.lock().merge()
+        self.lock_writer()?.merge()
     }
 
     fn sync(&self) -> Result<(), Error> {
-        if self.ctx.closed.load() {
-            return Err(Error::Closed);
-        }
-        self.writer.lock().sync()
+        self.lock_writer()?.sync()
     }
 
     fn close(&self) {
-        self.ctx.closed.store(true)
+        self.ctx.closed.store(true);
+        // A write or a merge that holds the writer finishes first. Whoever opens the directory
+        // next must not meet a writer of this instance that is still creating and removing files.
+        drop(self.writer.lock());
     }
 }
 
